@@ -11,9 +11,29 @@ import GrogModel.Lemmas.GraphSelect
 namespace Grog.C12
 open Grog
 
-/-- node `m` matches the patterns and the tag / exclude-tag / type filters and the host platform -/
+/-- node `m` matches the patterns and the tag / exclude-tag / type filters and the host platform. A target is
+    tested itself; an alias by its own label against the patterns and *the target it points to* against the
+    type / tag / exclude-tag / platform filters (`selMatchesAt`, `selPlatAt`) — so an excluded target is never
+    selected merely because it has an alias (before the fix it was: `alias_bypass_witness_old`). -/
 def Matched (g : BuildGraph) (s : Selector) (h : Host) (m : Nat) : Prop :=
-  g.matchesAt s m = true ∧ g.platAt h m = true
+  g.selMatchesAt s m = true ∧ g.selPlatAt h m = true
+
+theorem selMatchesAt_lt {g : BuildGraph} {s : Selector} {m : Nat} (h : g.selMatchesAt s m = true) : m < g.nodes.length := by
+  simp only [BuildGraph.selMatchesAt] at h
+  by_cases hlt : m < g.nodes.length
+  · exact hlt
+  · rw [List.getElem?_eq_none (by omega)] at h; simp at h
+
+/-- a starting point that passes the (alias-resolving) platform test passes the node-level one the ancestor walk uses -/
+theorem selPlatAt_platAt {g : BuildGraph} {h : Host} {m : Nat} (hp : g.selPlatAt h m = true) : g.platAt h m = true := by
+  simp only [BuildGraph.selPlatAt, BuildGraph.platAt] at hp ⊢
+  cases hn : g.nodes[m]? with
+  | none => simp [hn] at hp
+  | some n =>
+    simp only [hn] at hp ⊢
+    cases ht : n.isTarget with
+    | true => simpa [ht] using hp
+    | false => simp [platformOK, ht]
 
 /-- `x` is `m` or a transitive dependency of `m` -/
 def DepOf (g : BuildGraph) (x m : Nat) : Prop := Reach g.edges x m
@@ -35,12 +55,7 @@ theorem mem_roots {g : BuildGraph} {s : Selector} {h : Host} {order : List Nat} 
   constructor
   · exact fun hm => hm.2
   · intro hm
-    refine ⟨hc m ?_, hm⟩
-    have := hm.1
-    simp only [BuildGraph.matchesAt] at this
-    by_cases hlt : m < g.nodes.length
-    · exact hlt
-    · rw [List.getElem?_eq_none (by omega)] at this; simp at this
+    exact ⟨hc m (selMatchesAt_lt hm.1), hm⟩
 
 /-- On success the selected set is exactly the matching nodes together with all their transitive
     dependencies (edges through aliases are edges). -/
@@ -73,10 +88,10 @@ theorem select_nodup (g : BuildGraph) (s : Selector) (h : Host) (order sel : Lis
 /-- Selection always terminates with a selection or a platform error (the fuel of the model is never
     exhausted). -/
 theorem select_total (g : BuildGraph) (s : Selector) (h : Host) (order : List Nat) :
-    (∃ sel c, selectForBuild g s h order = .ok sel c) ∨ (∃ x, selectForBuild g s h order = .platformError x) := by
+    (∃ sel c, selectForBuild g s h order = .ok sel c) ∨ (∃ x c, selectForBuild g s h order = .platformError x c) := by
   cases hr : selectForBuild g s h order with
   | ok sel c => exact Or.inl ⟨sel, c, rfl⟩
-  | platformError x => exact Or.inr ⟨x, rfl⟩
+  | platformError x c => exact Or.inr ⟨x, c, rfl⟩
   | fuel => exact absurd hr (selectLoop_ne_fuel _ _ _ _ _)
 
 theorem platAt_false_iff {g : BuildGraph} {h : Host} {x : Nat} (hx : x < g.nodes.length) :
@@ -90,22 +105,17 @@ theorem platAt_false_iff {g : BuildGraph} {h : Host} {x : Nat} (hx : x < g.nodes
     incompatible is skipped, not an error (unless something else that matches depends on it). -/
 theorem platform_error_iff (g : BuildGraph) (s : Selector) (h : Host) (order : List Nat)
     (hwf : WF g) (hc : Covers g order) :
-    (∃ x, selectForBuild g s h order = .platformError x) ↔
+    (∃ x c, selectForBuild g s h order = .platformError x c) ↔
       ∃ m x, Matched g s h m ∧ DepOf g x m ∧ Incompatible g h x := by
   have hlt : ∀ m x, Matched g s h m → Reach g.edges x m → x < g.nodes.length := by
     intro m x hm hr
-    have hm' : m < g.nodes.length := by
-      have := hm.1
-      simp only [BuildGraph.matchesAt] at this
-      by_cases hlt : m < g.nodes.length
-      · exact hlt
-      · rw [List.getElem?_eq_none (by omega)] at this; simp at this
+    have hm' : m < g.nodes.length := selMatchesAt_lt hm.1
     cases hr with
     | refl => exact hm'
     | step e _ => exact (hwf _ e).1
   constructor
-  · rintro ⟨x, hx⟩
-    obtain ⟨h1, r, hr, hreach⟩ := selectLoop_err_inv _ _ _ _ _ _ hx
+  · rintro ⟨x, cx, hx⟩
+    obtain ⟨h1, ⟨r, hr, hreach⟩, _⟩ := selectLoop_err_inv _ _ _ _ _ _ _ hx
     have hm := (mem_roots hc r).mp hr
     have hreach' := reach_flip.mp hreach
     exact ⟨r, x, hm, hreach', (platAt_false_iff (hlt r x hm hreach')).mp h1⟩
@@ -114,7 +124,7 @@ theorem platform_error_iff (g : BuildGraph) (s : Selector) (h : Host) (order : L
     · exfalso
       have hspec := selectLoop_ok_spec hok
       have hx : x ∈ sel := (hspec.1 x).mpr ⟨m, (mem_roots hc m).mpr hm, hdep⟩
-      have hallok := hspec.2.2.1 (fun r hr => ((mem_roots hc r).mp hr).2) x hx
+      have hallok := hspec.2.2.1 (fun r hr => selPlatAt_platAt ((mem_roots hc r).mp hr).2) x hx
       have := (platAt_false_iff (hlt m x hm hdep)).mpr hinc
       rw [this] at hallok; cases hallok
     · exact herr
@@ -123,7 +133,7 @@ theorem platform_error_iff (g : BuildGraph) (s : Selector) (h : Host) (order : L
     every node agree on success / failure and select the same set. -/
 theorem select_order_independent (g : BuildGraph) (s : Selector) (h : Host) (o1 o2 : List Nat)
     (hwf : WF g) (h1 : Covers g o1) (h2 : Covers g o2) :
-    ((∃ x, selectForBuild g s h o1 = .platformError x) ↔ (∃ x, selectForBuild g s h o2 = .platformError x)) ∧
+    ((∃ x c, selectForBuild g s h o1 = .platformError x c) ↔ (∃ x c, selectForBuild g s h o2 = .platformError x c)) ∧
     (∀ sel1 c1 sel2 c2, selectForBuild g s h o1 = .ok sel1 c1 → selectForBuild g s h o2 = .ok sel2 c2 →
       ∀ x, x ∈ sel1 ↔ x ∈ sel2) := by
   refine ⟨?_, ?_⟩
@@ -151,9 +161,28 @@ def anyHost : Host := ⟨[108], true⟩
 end Ex
 
 /-- an incompatible dependency reached only through an alias is an error … -/
-example : selectForBuild Ex.g Ex.sel Ex.linux [0, 1, 2] = .platformError 0 := by decide
+example : selectForBuild Ex.g Ex.sel Ex.linux [0, 1, 2] = .platformError 0 3 := by decide
 /-- … and with `--all-platforms` the alias and its target are selected (in any order). -/
 example : selectForBuild Ex.g Ex.sel Ex.anyHost [2, 0, 1] = .ok [0, 1, 2] 3 := by decide
+/-! the alias finding: `lib` (tag `slow`) ← `al` (alias), `app`; `--exclude-tag=slow //...` -/
+namespace ExAlias
+def slow : Bytes := [115]
+def g : BuildGraph :=
+  ⟨[⟨Ex.lbl [108], true, [slow], [], false⟩, ⟨Ex.lbl [97, 108], false, [], [], false⟩, ⟨Ex.lbl [97, 112], true, [], [], false⟩],
+   [(0, 1)]⟩
+def sel : Selector := ⟨[⟨[], [], true⟩], [], [slow], .all⟩
+end ExAlias
+
+/-- current code: the alias of an excluded target is not a starting point; only `app` is selected … -/
+theorem alias_filtered_witness : selectForBuild ExAlias.g ExAlias.sel Ex.linux [0, 1, 2] = .ok [2] 1 := by decide
+
+/-- … whereas selecting aliases by pattern alone (the tree before the fix) selected the alias and with it the
+    excluded target `lib` (replayed on the real CLI by tools/checks/c12.py, signature `alias-bypasses-filters`). -/
+theorem alias_bypass_witness_old :
+    selectLoop ExAlias.g.edges (ExAlias.g.platAt Ex.linux)
+      ([0, 1, 2].filter (fun i => ExAlias.g.selMatchesAtOld ExAlias.sel i && ExAlias.g.platAt Ex.linux i)) [] 0 = .ok [2, 0, 1] 3 := by
+  decide
+
 example : WF Ex.g ∧ Covers Ex.g [2, 0, 1] := by
   refine ⟨by unfold WF; decide, ?_⟩
   intro i hi
